@@ -544,6 +544,10 @@ func runC07(c *mc.Ctx) {
 			strs = append(strs, s[:pos]+"1"+s[pos:], s[:pos]+"q"+s[pos:])
 		}
 	}
+	for _, s := range bases[:8] { // non-ASCII runes that case-fold into ASCII, in lower- and upper-case strings
+		strs = append(strs, runeSubstitutions(s)...)
+		strs = append(strs, runeSubstitutions(strings.ToUpper(s))...)
+	}
 	strs = append(strs, bip173Valid...)
 	strs = append(strs, bip173Invalid...)
 	tiny := []byte{'q', 'p', '1', 'a', 'A', '!'}
